@@ -87,6 +87,26 @@ def opt_shapes_case(draw, n_inputs=3):
         stmts.append(M.ExprStmt(M.Assign(M.Var("g1", FLOAT), "=", M.Bin("+", M.Var("g1", FLOAT), e)))
                      if draw(st.booleans()) else M.ExprStmt(M.Assign(M.Var("g1", FLOAT), "=", e)))
     if draw(st.integers(0, 9)) < 3:
+        # conditions that are float constants strictly between 0 and 1 (true, although they truncate to 0), written
+        # literally or arriving through a just-stored variable
+        v = draw(st.sampled_from([0.5, 0.25, 0.75, 0.999, 1.5, 0.0]))
+        lit = M.Lit(v, FLOAT, M.spell(v, FLOAT))
+        bump_g0 = lambda k: M.ExprStmt(M.Assign(M.Var("g0", INT), "=", M.Bin("+", M.Var("g0", INT), M.Lit(k, INT, str(k)))))
+        if draw(st.booleans()):
+            cv = M.Var(g.fresh("c"), FLOAT)
+            g.declare(cv.name, FLOAT)
+            stmts.append(M.Decl(FLOAT, cv.name, lit))
+            cond = cv
+        else:
+            cond = lit
+        stmts.append(M.If(cond, M.Block([bump_g0(1)]), M.Block([bump_g0(10)])))
+        if draw(st.booleans()):
+            k = g.fresh("n")
+            g.declare(k, INT)
+            stmts.append(M.Decl(INT, k, M.Lit(0, INT, "0")))
+            stmts.append(M.While(cond, M.Block([M.ExprStmt(M.Assign(M.Var(k, INT), "=", M.Bin("+", M.Var(k, INT), M.Lit(1, INT, "1")))),
+                                                bump_g0(100), M.If(M.Bin(">", M.Var(k, INT), M.Lit(1, INT, "1")), M.Block([M.Break()]))])))
+    if draw(st.integers(0, 9)) < 3:
         # chains of float divisions / multiplications whose regrouping changes the last bit
         fl = lambda v: M.Lit(v, FLOAT, M.spell(v, FLOAT))
         x = draw(st.sampled_from([M.Var("p1", FLOAT), M.Var("g1", FLOAT), fl(1.0)]))
